@@ -246,18 +246,44 @@ inductive Callable
 /-- `Callables.Table` -/
 abbrev Tab := List (Key × Callable)
 
-def bindsWf (l : List (Key × Exp)) : Bool := nodupKeys l && l.all (fun p => p.2.wf)
+/-- the id of a wildcard binding `* = X`.  On the compiled AST `BindStms.List` is
+[explicit bindings…, the `*` entry, one synthetic binding per expanded
+parameter…]; `Table` holds everything but the `*` entry. -/
+def star : Key := [42]
+
+def nonstar (l : List (Key × Exp)) : List (Key × Exp) := l.filter (fun p => p.1 != star)
+
+/-- `BindStms.Equals`: same `len(List)`; every entry of mine except the `*`
+entry itself is found in the other's `Table` and `BindStm.Equals` it. -/
+def bindsEq (a b : List (Key × Exp)) : Bool :=
+  a.length == b.length &&
+  a.all (fun p => p.1 == star || (lookupL p.1 b).any (fun v' => p.2.equal v'))
+
+def bindsWf (l : List (Key × Exp)) : Bool := nodupKeys (nonstar l) && l.all (fun p => p.2.wf)
 
 def Call.wf (c : Call) : Bool := bindsWf c.binds && c.mods.wf
 
 def keyed (cs : List Call) : List (Key × Call) := cs.map fun c => (c.id, c)
 
-def Callable.wf : Callable → Bool
+def Callable.insLen : Callable → Nat
+  | .stage _ i _ => i.length
+  | .pipeline i _ _ _ => i.length
+
+/-- compile binds every input parameter of the callee exactly once (explicitly
+or through the wildcard expansion) -/
+def Call.completeIn (T : Tab) (c : Call) : Bool :=
+  match lookupL c.decId T with
+  | some x => (nonstar c.binds).length == x.insLen
+  | none => (nonstar c.binds).length == c.binds.length
+
+def Callable.wfIn (T : Tab) : Callable → Bool
   | .stage _ i o => nodupKeys i && nodupKeys o
   | .pipeline i o cs r => nodupKeys i && nodupKeys o && nodupKeys (keyed cs) &&
-      cs.all Call.wf && bindsWf r
+      cs.all Call.wf && bindsWf r &&
+      (nonstar r).length == o.length &&          -- every output is returned exactly once
+      cs.all (Call.completeIn T)
 
-def Tab.wf (t : Tab) : Bool := t.all (fun p => p.2.wf)
+def Tab.wf (t : Tab) : Bool := t.all (fun p => p.2.wfIn t)
 
 /-- `Stage.EquivalentTo` / `Pipeline.EquivalentTo`; `rec` is `CallStm.EquivalentTo`
 on the sub-calls. -/
@@ -266,7 +292,7 @@ def equivCallable (rec : Call → Call → Bool) : Callable → Callable → Boo
       s == s' && matchAll inParamEq i i' && matchAll (outParamEq false) o o'
   | .pipeline i o cs r, .pipeline i' o' cs' r' =>
       matchAll inParamEq i i' && matchAll (outParamEq true) o o' &&
-      matchAll Exp.equal r r' &&                  -- Ret.Bindings.Equals
+      bindsEq r r' &&                             -- Ret.Bindings.Equals
       matchAll rec (keyed cs) (keyed cs')         -- len(Calls) equal; oCalls[call.Id] equivalent
   | _, _ => false
 
@@ -275,7 +301,7 @@ by `fuel` (compile rejects recursive pipelines; at fuel 0 nothing is compared). 
 def equivCall (selfCompare : Bool) : Nat → Tab → Tab → Call → Call → Bool
   | 0, _, _, _, _ => true
   | n + 1, T, U, c, d =>
-      c.id == d.id && matchAll Exp.equal c.binds d.binds && c.mods.equiv selfCompare d.mods &&
+      c.id == d.id && bindsEq c.binds d.binds && c.mods.equiv selfCompare d.mods &&
       (match lookupL c.decId T, lookupL d.decId U with
        | none, none => true
        | some x, some y => equivCallable (equivCall selfCompare n T U) x y
@@ -287,11 +313,15 @@ inductive Sem
   | cut
   | missing
   | stage (split : Bool) (ins outs : List (Key × SemParam))
-  | pipeline (ins outs : List (Key × SemParam)) (ret : List (Key × SemExp)) (calls : List (Key × Sem))
-  | call (id : Key) (binds : List (Key × SemExp)) (isLocal preflight : Bool)
+  | pipeline (ins outs : List (Key × SemParam)) (ret : List (Key × SemExp) × Nat) (calls : List (Key × Sem))
+  | call (id : Key) (binds : List (Key × SemExp) × Nat) (isLocal preflight : Bool)
       (disabled : Option SemExp) (callee : Sem)
 
-def semBinds (l : List (Key × Exp)) : List (Key × SemExp) := sortK (l.map fun p => (p.1, p.2.sem))
+/-- meaning of a binding list: the bound values by parameter (explicit and
+wildcard-expanded alike), and how many `*` entries the list carries (the code
+compares `len(List)`, so "written with a wildcard" is part of what it compares) -/
+def semBinds (l : List (Key × Exp)) : List (Key × SemExp) × Nat :=
+  (sortK ((nonstar l).map fun p => (p.1, p.2.sem)), l.length - (nonstar l).length)
 
 def semCallable (rec : Call → Sem) : Callable → Sem
   | .stage s i o =>
@@ -317,7 +347,7 @@ structure Prog where
   call : Call
   deriving Repr
 
-def Prog.wf (p : Prog) : Bool := p.tab.wf && p.call.wf
+def Prog.wf (p : Prog) : Bool := p.tab.wf && p.call.wf && p.call.completeIn p.tab
 
 def Prog.fuel (a b : Prog) : Nat := a.tab.length + b.tab.length + 1
 
@@ -327,38 +357,49 @@ def equivalentCall (selfCompare : Bool) (a b : Prog) : Bool :=
 
 /-! ## the pipestance lock -/
 
-/-- `lockFile`: `_lock` exists in the pipestance directory; `holders`: the
-mrp processes (ids) whose `Lock()` succeeded and that have not unlocked. -/
+/-- `lockFile`: `_lock` exists in the pipestance directory; `holders`: the mrp
+processes (ids) whose `Lock()` succeeded and that have neither unlocked nor
+died; `registered`: the processes that have this pipestance registered with
+`util.RegisterSignalHandler` (its `HandleSignal` = `unlock()` runs when the
+process dies through a handled signal or `util.DieIf`/`Suicide`). -/
 structure LockState where
   lockFile : Bool
   holders : List Nat
+  registered : List Nat
   deriving DecidableEq, Repr
 
 inductive LockOp
-  | lock (p : Nat)      -- Pipestance.Lock by process p
+  | lock (p : Nat)      -- Pipestance.Lock by process p (an attach for writing)
   | unlock (p : Nat)    -- Pipestance.Unlock by process p
-  | signal (p : Nat)    -- HandleSignal in process p (SIGINT/SIGTERM)
+  | signal (p : Nat)    -- process p dies through the signal-handler path (SIGINT/SIGTERM, DieIf, Suicide)
   deriving DecidableEq, Repr
 
-/-- returns the new state and whether the operation succeeded (`Lock` = nil error) -/
-def lockStep (s : LockState) : LockOp → LockState × Bool
+/-- returns the new state and whether the operation succeeded (`Lock` = nil error).
+`regFirst` is the regenerated fact "`RegisterSignalHandler` is called before the
+`_lock`-exists check in `Pipestance.Lock`" (then a refused attacher stays registered). -/
+def lockStep (regFirst : Bool) (s : LockState) : LockOp → LockState × Bool
   | .lock p =>
-      if s.lockFile then (s, false)                                  -- PipestanceLockedError
-      else ({ lockFile := true, holders := p :: s.holders }, true)
-  | .unlock p => ({ lockFile := false, holders := s.holders.filter (· != p) }, true)
-  | .signal p => ({ lockFile := false, holders := s.holders.filter (· != p) }, true)
+      if s.lockFile then                                              -- PipestanceLockedError
+        ({ s with registered := if regFirst then p :: s.registered else s.registered }, false)
+      else ({ lockFile := true, holders := p :: s.holders, registered := p :: s.registered }, true)
+  | .unlock p =>                                                      -- unlock(); UnregisterSignalHandler
+      ({ lockFile := false, holders := s.holders.filter (· != p),
+         registered := s.registered.filter (· != p) }, true)
+  | .signal p =>                                                      -- every registered HandleSignal: unlock()
+      ({ lockFile := if s.registered.contains p then false else s.lockFile,
+         holders := s.holders.filter (· != p), registered := s.registered.filter (· != p) }, true)
 
-/-- processes only unlock what they hold (mrp calls Unlock/HandleSignal on a
-pipestance it locked; read-only attaches never lock or unlock) -/
+/-- what processes may do: attach when they do not hold the pipestance, unlock
+only what they hold; ANY process (also one whose attach was refused) may die -/
 def disciplined (s : LockState) : LockOp → Bool
   | .lock p => !s.holders.contains p
   | .unlock p => s.holders.contains p
-  | .signal p => s.holders.contains p
+  | .signal _ => true
 
-def lockRun : LockState → List LockOp → Option LockState
+def lockRun (regFirst : Bool) : LockState → List LockOp → Option LockState
   | s, [] => some s
-  | s, op :: r => if disciplined s op then lockRun (lockStep s op).1 r else none
+  | s, op :: r => if disciplined s op then lockRun regFirst (lockStep regFirst s op).1 r else none
 
-def lockInit : LockState := { lockFile := false, holders := [] }
+def lockInit : LockState := { lockFile := false, holders := [], registered := [] }
 
 end Martian.Equiv
